@@ -1,174 +1,3 @@
--- GENERATED by tools/translate.py from src/time_integration/time_integration.cpp — do not edit.
-import SimuVerif.Model.Vec
-set_option linter.unusedVariables false
-namespace Simu.Gen
-open Simu
-variable {R : Type} [Add R] [Sub R] [Mul R] [Div R] [Neg R] [Lit R] [LT R] [LE R] [DecidableLT R] [DecidableLE R] [DecidableEq R]
-/-- CONTACT_MODEL_INDEX 0, DYNAMIC_MODEL_INDEX 0: body of `if(n1.is_used())` -/
-def node00 (dt damping c1_node_mass : R) (n1_pos n1_mom n1_force : V3 R) : V3 R × V3 R × V3 R :=
-  let n1_mom : V3 R := (n1_mom + ((n1_force - (n1_mom * (damping / c1_node_mass))) * dt))
-  let n1_pos : V3 R := (n1_pos + (n1_mom * (dt / c1_node_mass)))
-  let n1_force : V3 R := (V3.mk (lit 0) (lit 0) (lit 0) : V3 R)
-  (n1_pos, n1_mom, n1_force)
-
-/-- CONTACT_MODEL_INDEX 0, DYNAMIC_MODEL_INDEX 1: body of `if(n1.is_used())` -/
-def node01 (dt damping c1_node_mass : R) (n1_pos n1_mom n1_force : V3 R) : V3 R × V3 R × V3 R :=
-  let n1_pos : V3 R := (n1_pos + (n1_force * (dt / damping)))
-  let n1_force : V3 R := (V3.mk (lit 0) (lit 0) (lit 0) : V3 R)
-  let n1_force : V3 R := (V3.mk (lit 0) (lit 0) (lit 0) : V3 R)
-  (n1_pos, n1_mom, n1_force)
-
-/-- CONTACT_MODEL_INDEX 1, DYNAMIC_MODEL_INDEX 0: the `else` (uncoupled) branch -/
-def single10 (dt damping c1_node_mass : R) (n1_pos n1_mom n1_force : V3 R) : V3 R × V3 R × V3 R :=
-  let n1_mom : V3 R := (n1_mom + ((n1_force - (n1_mom * (damping / c1_node_mass))) * dt))
-  let n1_pos : V3 R := (n1_pos + (n1_mom * (dt / c1_node_mass)))
-  let n1_force : V3 R := (V3.mk (lit 0) (lit 0) (lit 0) : V3 R)
-  (n1_pos, n1_mom, n1_force)
-
-/-- CONTACT_MODEL_INDEX 1, DYNAMIC_MODEL_INDEX 0: body of the ownership block (both nodes of the pair) -/
-def pair10 (dt damping c1_node_mass c2_node_mass : R) (n1_pos n1_mom n1_force : V3 R) (n2_pos n2_mom n2_force : V3 R) : (V3 R × V3 R × V3 R) × (V3 R × V3 R × V3 R) :=
-  let avg_momentum : V3 R := ((n1_mom + n2_mom) * ((lit 1 : R) / lit 2))
-  let n1_mom : V3 R := avg_momentum
-  let n2_mom : V3 R := avg_momentum
-  let avg_force : V3 R := ((n1_force + n2_force) * ((lit 1 : R) / lit 2))
-  let n1_force : V3 R := avg_force
-  let n2_force : V3 R := avg_force
-  let avg_node_mass : R := ((c1_node_mass + c2_node_mass) * ((lit 1 : R) / lit 2))
-  let n1_mom : V3 R := (n1_mom + ((n1_force - (n1_mom * (damping / avg_node_mass))) * dt))
-  let n2_mom : V3 R := (n2_mom + ((n2_force - (n2_mom * (damping / avg_node_mass))) * dt))
-  let n1_pos : V3 R := (n1_pos + (n1_mom * (dt / avg_node_mass)))
-  let n2_pos : V3 R := (n2_pos + (n2_mom * (dt / avg_node_mass)))
-  let kinetic_energy_node : R := ((((lit 1 : R) / lit 2) * (V3.normSq n1_mom)) / avg_node_mass)
-  let n1_force : V3 R := (V3.mk (lit 0) (lit 0) (lit 0) : V3 R)
-  let n2_force : V3 R := (V3.mk (lit 0) (lit 0) (lit 0) : V3 R)
-  ((n1_pos, n1_mom, n1_force), (n2_pos, n2_mom, n2_force))
-
-/-- CONTACT_MODEL_INDEX 1, DYNAMIC_MODEL_INDEX 1: the `else` (uncoupled) branch -/
-def single11 (dt damping c1_node_mass : R) (n1_pos n1_mom n1_force : V3 R) : V3 R × V3 R × V3 R :=
-  let n1_pos : V3 R := (n1_pos + (n1_force * (dt / damping)))
-  let n1_force : V3 R := (V3.mk (lit 0) (lit 0) (lit 0) : V3 R)
-  let n1_force : V3 R := (V3.mk (lit 0) (lit 0) (lit 0) : V3 R)
-  (n1_pos, n1_mom, n1_force)
-
-/-- CONTACT_MODEL_INDEX 1, DYNAMIC_MODEL_INDEX 1: body of the ownership block (both nodes of the pair) -/
-def pair11 (dt damping c1_node_mass c2_node_mass : R) (n1_pos n1_mom n1_force : V3 R) (n2_pos n2_mom n2_force : V3 R) : (V3 R × V3 R × V3 R) × (V3 R × V3 R × V3 R) :=
-  let avg_force : V3 R := ((n1_force + n2_force) * ((lit 1 : R) / lit 2))
-  let n1_force : V3 R := avg_force
-  let n2_force : V3 R := avg_force
-  let avg_node_mass : R := ((c1_node_mass + c2_node_mass) * ((lit 1 : R) / lit 2))
-  let n1_pos : V3 R := (n1_pos + (avg_force * (dt / damping)))
-  let n2_pos : V3 R := (n2_pos + (avg_force * (dt / damping)))
-  let node_kinetic_energy : R := ((((lit 1 : R) / lit 2) * (V3.normSq (avg_force * (dt / damping)))) / avg_node_mass)
-  let n1_force : V3 R := (V3.mk (lit 0) (lit 0) (lit 0) : V3 R)
-  let n2_force : V3 R := (V3.mk (lit 0) (lit 0) (lit 0) : V3 R)
-  ((n1_pos, n1_mom, n1_force), (n2_pos, n2_mom, n2_force))
-
-/-- CONTACT_MODEL_INDEX 2, DYNAMIC_MODEL_INDEX 0: initialisation of the accumulators (the parameter avg_momentum is a placeholder, shadowed when the source declares it) -/
-def init20 (c1_node_mass : R) (n1_pos n1_mom n1_force : V3 R) (avg_momentum : V3 R) : V3 R × V3 R × R :=
-  let avg_force : V3 R := n1_force
-  let avg_node_mass : R := c1_node_mass
-  let avg_momentum : V3 R := n1_mom
-  (avg_force, avg_momentum, avg_node_mass)
-
-/-- body of the first loop over the coupled nodes -/
-def acc20 (avg_force avg_momentum : V3 R) (avg_node_mass : R) (n2_pos n2_mom n2_force : V3 R) (c2_node_mass : R) : V3 R × V3 R × R :=
-  let avg_force : V3 R := (avg_force + n2_force)
-  let avg_node_mass : R := (avg_node_mass + c2_node_mass)
-  let avg_momentum : V3 R := (avg_momentum + n2_mom)
-  (avg_force, avg_momentum, avg_node_mass)
-
-/-- statements between the two loops: averages, update of n1 -/
-def own20 (dt damping : R) (nbc : Nat) (avg_force avg_momentum : V3 R) (avg_node_mass : R) (n1_pos n1_mom n1_force : V3 R) : V3 R × V3 R × V3 R :=
-  let avg_force : V3 R := (avg_force / ((lit nbc : R) + (lit 1 : R)))
-  let avg_node_mass : R := (avg_node_mass / ((lit nbc : R) + (lit 1 : R)))
-  let avg_momentum : V3 R := (avg_momentum / ((lit nbc : R) + (lit 1 : R)))
-  let kinetic_energy_node : R := ((((lit 1 : R) / lit 2) * (V3.normSq avg_momentum)) / avg_node_mass)
-  let momentum_increment : V3 R := ((avg_force - (avg_momentum * (damping / avg_node_mass))) * dt)
-  let updated_avg_momentum : V3 R := (avg_momentum + momentum_increment)
-  let n1_mom : V3 R := (n1_mom + momentum_increment)
-  let n1_pos : V3 R := (n1_pos + (updated_avg_momentum * (dt / avg_node_mass)))
-  let n1_force : V3 R := (V3.mk (lit 0) (lit 0) (lit 0) : V3 R)
-  (n1_pos, n1_mom, n1_force)
-
-/-- body of the second loop, executed in the environment left by the statements between the loops -/
-def partner20 (dt damping : R) (nbc : Nat) (avg_force avg_momentum : V3 R) (avg_node_mass : R) (n1_pos n1_mom n1_force : V3 R) (n2_pos n2_mom n2_force : V3 R) : V3 R × V3 R × V3 R :=
-  let avg_force : V3 R := (avg_force / ((lit nbc : R) + (lit 1 : R)))
-  let avg_node_mass : R := (avg_node_mass / ((lit nbc : R) + (lit 1 : R)))
-  let avg_momentum : V3 R := (avg_momentum / ((lit nbc : R) + (lit 1 : R)))
-  let kinetic_energy_node : R := ((((lit 1 : R) / lit 2) * (V3.normSq avg_momentum)) / avg_node_mass)
-  let momentum_increment : V3 R := ((avg_force - (avg_momentum * (damping / avg_node_mass))) * dt)
-  let updated_avg_momentum : V3 R := (avg_momentum + momentum_increment)
-  let n1_mom : V3 R := (n1_mom + momentum_increment)
-  let n1_pos : V3 R := (n1_pos + (updated_avg_momentum * (dt / avg_node_mass)))
-  let n1_force : V3 R := (V3.mk (lit 0) (lit 0) (lit 0) : V3 R)
-  let n2_mom : V3 R := (n2_mom + momentum_increment)
-  let n2_pos : V3 R := (n2_pos + (updated_avg_momentum * (dt / avg_node_mass)))
-  let n2_force : V3 R := (V3.mk (lit 0) (lit 0) (lit 0) : V3 R)
-  (n2_pos, n2_mom, n2_force)
-
-/-- CONTACT_MODEL_INDEX 2, DYNAMIC_MODEL_INDEX 1: initialisation of the accumulators (the parameter avg_momentum is a placeholder, shadowed when the source declares it) -/
-def init21 (c1_node_mass : R) (n1_pos n1_mom n1_force : V3 R) (avg_momentum : V3 R) : V3 R × V3 R × R :=
-  let avg_force : V3 R := n1_force
-  let avg_node_mass : R := c1_node_mass
-  (avg_force, avg_momentum, avg_node_mass)
-
-/-- body of the first loop over the coupled nodes -/
-def acc21 (avg_force avg_momentum : V3 R) (avg_node_mass : R) (n2_pos n2_mom n2_force : V3 R) (c2_node_mass : R) : V3 R × V3 R × R :=
-  let avg_force : V3 R := (avg_force + n2_force)
-  let avg_node_mass : R := (avg_node_mass + c2_node_mass)
-  (avg_force, avg_momentum, avg_node_mass)
-
-/-- statements between the two loops: averages, update of n1 -/
-def own21 (dt damping : R) (nbc : Nat) (avg_force avg_momentum : V3 R) (avg_node_mass : R) (n1_pos n1_mom n1_force : V3 R) : V3 R × V3 R × V3 R :=
-  let avg_force : V3 R := (avg_force / ((lit nbc : R) + (lit 1 : R)))
-  let avg_node_mass : R := (avg_node_mass / ((lit nbc : R) + (lit 1 : R)))
-  let kinetic_energy_node : R := (((lit 1 : R) / lit 2) * (V3.normSq (avg_force * (avg_node_mass / damping))))
-  let n1_pos : V3 R := (n1_pos + (avg_force * (dt / damping)))
-  let n1_force : V3 R := (V3.mk (lit 0) (lit 0) (lit 0) : V3 R)
-  (n1_pos, n1_mom, n1_force)
-
-/-- body of the second loop, executed in the environment left by the statements between the loops -/
-def partner21 (dt damping : R) (nbc : Nat) (avg_force avg_momentum : V3 R) (avg_node_mass : R) (n1_pos n1_mom n1_force : V3 R) (n2_pos n2_mom n2_force : V3 R) : V3 R × V3 R × V3 R :=
-  let avg_force : V3 R := (avg_force / ((lit nbc : R) + (lit 1 : R)))
-  let avg_node_mass : R := (avg_node_mass / ((lit nbc : R) + (lit 1 : R)))
-  let kinetic_energy_node : R := (((lit 1 : R) / lit 2) * (V3.normSq (avg_force * (avg_node_mass / damping))))
-  let n1_pos : V3 R := (n1_pos + (avg_force * (dt / damping)))
-  let n1_force : V3 R := (V3.mk (lit 0) (lit 0) (lit 0) : V3 R)
-  let n2_pos : V3 R := (n2_pos + (avg_force * (dt / damping)))
-  let n2_force : V3 R := (V3.mk (lit 0) (lit 0) (lit 0) : V3 R)
-  (n2_pos, n2_mom, n2_force)
-
-/-- CONTACT_MODEL_INDEX 1: `c1->get_local_id() > c2_id` -/
-def owns1 (c1_local_id c2_id : Nat) : Bool := decide (c2_id < c1_local_id)
-
-/-- CONTACT_MODEL_INDEX 2: the all_of predicate `c1->get_local_id() > coupled_node_data.first` -/
-def owns2 (c1_local_id key : Nat) : Bool := decide (key < c1_local_id)
-
-/-- `simulation_time_ += dt_` (last statement, every configuration) -/
-def timeStep (simulation_time dt : R) : R :=
-  let simulation_time : R := (simulation_time + dt)
-  simulation_time
-
-/-- `cell::get_mass` -/
-def cellMass (mass_density volume : R) : R :=
-  (mass_density * volume)
-
-/-- `cell::get_nb_of_nodes` (size_t arithmetic; truncated subtraction only differs when the free queue is longer than the node list) -/
-def nbNodes (node_lst_size free_node_queue_size : Nat) : Nat :=
-  (node_lst_size - free_node_queue_size)
-
-/-- `cell::get_node_mass` -/
-def nodeMass (mass_density volume : R) (nb : Nat) : R :=
-  ((cellMass mass_density volume) / (lit nb : R))
-
-/-- global type ids whose class constructor sets `is_static_ = true` (simulation_initializer.cpp dispatch) -/
-def staticTypeIds : List Nat := [1, 4]
-
-/-- all type ids of the dispatch -/
-def knownTypeIds : List Nat := [0, 1, 2, 3, 4]
-
-/-- `(t1, t2)` such that couplings are only created under `c1 type == t1 && c2 type == t2`: node-node model, face-face model -/
-def couplingGuards : List (Nat × Nat) := [(0, 0), (0, 0)]
-
-
-end Simu.Gen
+-- GENERATED: translation FAILED
+#eval (throw (IO.userError "translator failed for Integrator: structure not found: if(n1.is_used()){") : IO Unit)
+translator_failed
